@@ -103,3 +103,14 @@ Example history_example :
               e_owning := false; e_mode := Checked; e_crash := None; e_gap := fun _ => false |} in
   length (c_labels (exec e (init (fun _ => [Next NIdVal])) [0; 1; 0; 1]%nat)) = 4%nat.
 Proof. vm_compute. reflexivity. Qed.
+
+(** ** frame: a thread that takes no step keeps its local state (program counter, remaining program, buffer,
+    accumulator), whatever the other threads do -- a thread suspended for arbitrarily long resumes exactly
+    where it stopped *)
+Theorem unscheduled_thread_untouched : forall e s c t,
+  ~ In t s -> c_pool (exec e c s) t = c_pool c t.
+Proof.
+  intros e s. induction s as [|u s IH]; intros c t Hn; [reflexivity|].
+  rewrite exec_cons, IH by (intros H; apply Hn; right; exact H).
+  apply step_pool_other. intros ->. apply Hn. left. reflexivity.
+Qed.
